@@ -2,7 +2,7 @@ import os, sys
 sys.path.insert(0, os.path.dirname(os.path.abspath(__file__)))
 import parfor_common
 
-THEOREMS = []
+THEOREMS = ["Dispenso.ParFor." + t for t in ['C13_granularity', 'C13_last_ends_at_stop']]
 
 
 def run(ctx, replay):
